@@ -67,14 +67,19 @@ func liftInto(P *core.Program, instr ssa.Instruction, within map[*ssa.Function]b
 	return out
 }
 
-// certainToRun: x lies on every path from its function's entry to a normal return.
+// certainToRun: x lies on every path from its function's entry to a normal return that does not
+// report a failure (a helper that bails out with an error before reaching x has not "skipped" x for
+// a caller that goes on only when the helper succeeded).
 func certainToRun(x ssa.Instruction) bool {
 	fn := x.Parent()
 	for _, b := range fn.Blocks {
 		if len(b.Instrs) == 0 {
 			continue
 		}
-		if _, ok := b.Instrs[len(b.Instrs)-1].(*ssa.Return); ok {
+		if r, ok := b.Instrs[len(b.Instrs)-1].(*ssa.Return); ok {
+			if isErr, _ := isErrorReturn(r); isErr {
+				continue
+			}
 			if b != x.Block() && !x.Block().Dominates(b) {
 				return false
 			}
